@@ -32,7 +32,7 @@ def tensor_list(cx, name, distinct=True, min_len=0, nonempty_numel=False):
     seq.fn = f
     j = z3.Int("j!q")
     # numel of every tensor is a natural number [T: shapes have non-negative sizes]
-    cx.assume(z3.ForAll([j], numel(f(j)) >= (1 if nonempty_numel else 0), patterns=[numel(f(j))]), tag="numel>=0")
+    cx.assume(V.forall([j], numel(f(j)) >= (1 if nonempty_numel else 0), patterns=[numel(f(j))]), tag="numel>=0")
     if distinct is True:
         P.seq_index_fn(_FakeInterp(cx), seq)
         seq.at_key = lambda t: V.TRef(t)
@@ -97,7 +97,7 @@ def diag_init_loop():
             facts.append(("content", z3.BoolVal(True)))
         else:
             g = seq_get(ind, j)
-            facts.append(("content", z3.ForAll([j], z3.Implies(z3.And(0 <= j, j < lift(i)),
+            facts.append(("content", V.forall([j], z3.Implies(z3.And(0 <= j, j < lift(i)),
                                                                 z3.And(lift(g[0]) == off.off(j), lift(g[1]) == off.off(j + 1))))))
         return facts
     return LoopSpec(havoc, inv)
@@ -190,7 +190,7 @@ def jac_chunk_loop():
         offI = offsets(it, inputs)
         kk = offI.blk(c)
         body = chunks.row(r, c) == jac_spec_row(cx, outs, inputs, P.as_symseq(it, jac_outputs), r, kk, c - offI.off(kk))
-        facts.append(("rows_are_spec_rows", z3.ForAll([r, c], z3.Implies(z3.And(0 <= r, r < ik, 0 <= c, c < offI.total()), body))))
+        facts.append(("rows_are_spec_rows", V.forall([r, c], z3.Implies(z3.And(0 <= r, r < ik, 0 <= c, c < offI.total()), body))))
         return facts
     return LoopSpec(havoc, inv)
 
@@ -235,12 +235,12 @@ def disunite_loop():
             return facts
         j, c = z3.Int("j!q"), z3.Int("c!q")
         facts.append(("n_keys", lift(gv.keys.length) == lift(i)))
-        facts.append(("keys_in_order", z3.ForAll([j], z3.Implies(z3.And(0 <= j, j < lift(i)), gv.keys.get(j).ref == m.keys.get(j).ref))))
+        facts.append(("keys_in_order", V.forall([j], z3.Implies(z3.And(0 <= j, j < lift(i)), gv.keys.get(j).ref == m.keys.get(j).ref))))
         kj = m.keys.get(j).ref
         val = gv.get(kj)
-        facts.append(("slice_len", z3.ForAll([j], z3.Implies(z3.And(0 <= j, j < lift(i)),
+        facts.append(("slice_len", V.forall([j], z3.Implies(z3.And(0 <= j, j < lift(i)),
                                                              lift(val.shape.lead[0]) == ps.off(j + 1) - ps.off(j)))))
-        facts.append(("slice_content", z3.ForAll([j, c], z3.Implies(z3.And(0 <= j, j < lift(i), 0 <= c, c < ps.off(j + 1) - ps.off(j)),
+        facts.append(("slice_content", V.forall([j, c], z3.Implies(z3.And(0 <= j, j < lift(i), 0 <= c, c < ps.off(j + 1) - ps.off(j)),
                                                                     val.elem([c]) == united.elem([ps.off(j) + c])))))
         return facts
     return LoopSpec(havoc, inv)
@@ -280,9 +280,9 @@ def accumulate_loop():
         done = z3.And(dom(t), idx(t) < lift(i))
         upd = z3.If(has0(t), val0(t, c), ZERO) + m.get(t).elem([c])
         facts = [
-            ("has", z3.ForAll([t], heap.has_f(t) == z3.If(done, True, has0(t)))),
-            ("val", z3.ForAll([t, c], heap.val_f(t, c) == z3.If(done, upd, val0(t, c)))),
-            ("storage_kept_when_existing", z3.ForAll([t], z3.Implies(z3.Or(z3.Not(done), has0(t)), heap.stor_f(t) == stor0(t)))),
+            ("has", V.forall([t], heap.has_f(t) == z3.If(done, True, has0(t)))),
+            ("val", V.forall([t, c], heap.val_f(t, c) == z3.If(done, upd, val0(t, c)))),
+            ("storage_kept_when_existing", V.forall([t], z3.Implies(z3.Or(z3.Not(done), has0(t)), heap.stor_f(t) == stor0(t)))),
         ]
         return facts
     return LoopSpec(havoc, inv)
@@ -441,7 +441,7 @@ def accumulate_compute_contract(interp, args, kwargs):
     all_expect = cx.fresh_bool("all_keys_expect_grad")
     w = cx.fresh_int("bad_key")
     n = lift(keys.length)
-    cx.assume(z3.Implies(all_expect, z3.ForAll([jq], z3.Implies(z3.And(0 <= jq, jq < n), expects_grad(keys.get(jq).ref)),
+    cx.assume(z3.Implies(all_expect, V.forall([jq], z3.Implies(z3.And(0 <= jq, jq < n), expects_grad(keys.get(jq).ref)),
                                                patterns=[keys.get(jq).ref])), tag="accumulate contract")
     cx.assume(z3.Implies(z3.Not(all_expect), z3.And(0 <= w, w < n, z3.Not(expects_grad(keys.get(w).ref)))), tag="accumulate contract")
     if not cx.branch(all_expect):
